@@ -21,7 +21,7 @@ DESIGN_REF = "DESIGN.md §4 C02"
 RULE = (
     "cases = C01-style histories biased to directory ops (mkdir, nested makedirs bursts with files, arrive-then-rename, "
     "rename chains incl. ancestors, move-in of pre-built trees, replace of an empty dir, rmtree + re-create), "
-    "recursive and non-recursive, absolute and relative roots; after the final drain EVERY directory of the real tree "
+    "recursive and non-recursive, absolute and relative roots, normal and generate_full_events emitter; after the final drain EVERY directory of the real tree "
     "(enumerated from disk) gets a probe file.  non-trivial = the final tree has >= 1 directory that was not present "
     "at start or whose path changed; distinct = digest of (config, history, final tree shape)"
 )
@@ -94,6 +94,7 @@ def cases(draw, tier):
         "bytes": draw(st.sampled_from([False, False, False, True])),
         "bufsize": draw(st.sampled_from(c01.BUFSIZES)),
         "spelling": draw(st.sampled_from(["abs", "abs", "rel"])),
+        "full": draw(st.sampled_from([False, False, False, True])),
     }
     opts = {
         "max_bursts": 4 if tier == "quick" else 7,
@@ -127,7 +128,7 @@ def run_shard(spec):
             cl.append("arrive-then-rename")
         if any(op[0] == "makedirs" for b in case["bursts"] for op in b):
             cl.append("nested-creation-burst")
-        cl += ["recursive" if case["cfg"]["recursive"] else "non-recursive", "root:" + case["cfg"]["spelling"]]
+        cl += ["recursive" if case["cfg"]["recursive"] else "non-recursive", "root:" + case["cfg"]["spelling"], "full-emitter" if case["cfg"].get("full") else "normal-emitter"]
         probed[0] += len(final)
         st_.case([case["cfg"], fsops.normalized_history(case), final], nt, cl, sample=case if count[0] % 40 == 1 else None)
 
